@@ -429,7 +429,10 @@ pub fn exec(a: &[&str]) -> (String, String) {
                 Outcome::Panic(m) => ("PANIC".into(), format!("FAIL writer panics: {}", &m[..m.len().min(100)])),
             }
         }
-        "lzexp" => {
+        "lzexp" | "lzexpn" => {
+            // lzexpn: the same without the .lzma header (LZMAWriter::new(.., use_header = false, .., Some(n))):
+            // the declared size is enforced all the same
+            let use_header = a[0] == "lzexp";
             let o = Opts::parse(a[1]);
             let expected: Option<u64> = if a[2] == "none" { None } else { Some(a[2].parse().unwrap()) };
             let seed: u64 = a[3].parse().unwrap();
@@ -442,7 +445,7 @@ pub fn exec(a: &[&str]) -> (String, String) {
             let mut accepted: Vec<u8> = Vec::new();
             let mut fails: Vec<String> = Vec::new();
             let r = guarded(|| {
-                let mut w = LZMAWriter::new(Vec::new(), &o.lzma(None), true, expected.is_none(), expected)?;
+                let mut w = LZMAWriter::new(Vec::new(), &o.lzma(None), use_header, expected.is_none(), expected)?;
                 let mut p = 0usize;
                 let mut finished: Option<std::io::Result<Vec<u8>>> = None;
                 for op in &ops {
@@ -488,16 +491,24 @@ pub fn exec(a: &[&str]) -> (String, String) {
                     match fin {
                         Some(Ok(stream)) => {
                             results.push("D".into());
-                            hdr = hex(&stream[5..13]);
+                            if use_header {
+                                hdr = hex(&stream[5..13]);
+                            }
                             if let Some(ex) = expected {
                                 if ex != accepted.len() as u64 {
                                     fails.push(format!("finish succeeded with {} bytes written but {ex} declared", accepted.len()));
                                 }
-                                if stream[5..13] != (accepted.len() as u64).to_le_bytes() {
+                                if use_header && stream[5..13] != (accepted.len() as u64).to_le_bytes() {
                                     fails.push("the header does not carry the number of bytes written".into());
                                 }
                             }
-                            match guarded(|| LZMAReader::new_mem_limit(&stream[..], u32::MAX, None)) {
+                            let rd = if use_header {
+                                guarded(|| LZMAReader::new_mem_limit(&stream[..], u32::MAX, None))
+                            } else {
+                                let u = expected.unwrap_or(u64::MAX);
+                                guarded(|| LZMAReader::new(&stream[..], u, o.lc, o.lp, o.pb, o.dict, None))
+                            };
+                            match rd {
                                 Outcome::Ok(rd) => match read_all(rd) {
                                     Outcome::Ok(d) if d == accepted => {}
                                     _ => fails.push("the stream does not decode to the accepted bytes".into()),
@@ -584,6 +595,28 @@ pub fn gen(rng: &mut Rng, tier: &str, dist: &mut Dist) -> Vec<String> {
     let n = if thorough { 12000 } else { 360 };
     let max_len = if thorough { 40000 } else { 6000 };
     let mut cmds = Vec::new();
+    // look-ahead border: the optimal parser (Normal mode, nice_len < 273) runs several thousand positions
+    // without a nice match, then meets a long match; one history is a single write, the other ends a
+    // write 10..272 bytes into that match - the parser must not see a shorter match because the data of
+    // the next write has not arrived (look-ahead = extra_size_after + MATCH_LEN_MAX, not nice_len)
+    for (i, nice) in [32u32, 64, 128, 272].iter().enumerate() {
+        if !thorough && i >= 2 {
+            break;
+        }
+        let mut data: Vec<u8> = (0..30000).map(|_| if rng.chance(1, 2) { b'a' } else { b'b' }).collect();
+        let at = 12000 + rng.below(400) as usize;
+        let src = 2000 + rng.below(3000) as usize;
+        let copy: Vec<u8> = data[src..src + 400].to_vec();
+        data[at..at + 400].copy_from_slice(&copy);
+        let o = Opts { lc: 3, lp: 0, pb: 2, dict: 1 << 16, nice: *nice, mode: 1, mf: (i % 2) as u32, depth: 0 };
+        for cut in [10usize, 100, 160, 200, 250, 272] {
+            let a = vec![Op::Write(data.len())];
+            let b = vec![Op::Write(at + cut), Op::Write(data.len() - at - cut)];
+            dist.bump("pure.lookahead_border");
+            cmds.push(format!("pure1 {} 0 none {} {} {}", o.to_string(), hex(&data), ops_to_string(&a), ops_to_string(&b)));
+            cmds.push(format!("pure2 {} 0 0 none {} {} {}", o.to_string(), hex(&data), ops_to_string(&a), ops_to_string(&b)));
+        }
+    }
     for i in 0..n {
         let class = if i < DATA_CLASSES.len() { DATA_CLASSES[i] } else { *rng.pick(DATA_CLASSES) };
         let data = gen_data(rng, class, max_len);
@@ -640,7 +673,9 @@ pub fn gen(rng: &mut Rng, tier: &str, dist: &mut Dist) -> Vec<String> {
                 }
                 ops.push(Op::Finish);
                 dist.bump(&format!("lzexp.{tag}"));
-                cmds.push(format!("lzexp {} {} {} {}", o.to_string(), expected.map(|e| e.to_string()).unwrap_or("none".into()), rng.next() % 1_000_000, ops_to_string(&ops)));
+                let cmd = if rng.chance(1, 2) { "lzexp" } else { "lzexpn" };
+                dist.bump(cmd);
+                cmds.push(format!("{} {} {} {} {}", cmd, o.to_string(), expected.map(|e| e.to_string()).unwrap_or("none".into()), rng.next() % 1_000_000, ops_to_string(&ops)));
             }
         }
     }
